@@ -177,7 +177,7 @@ func apply[S ~[]E, E selectable](list S, submissionRequirement SubmissionRequire
 			returnVCs = append(returnVCs, member.flatten()...)
 			index++
 		}
-		if index == *submissionRequirement.Max {
+		if submissionRequirement.Max != nil && index == *submissionRequirement.Max {
 			// we have enough to fulfill the max requirement, stop
 			break
 		}
